@@ -113,7 +113,7 @@ def _c05(seed, quick):
     m, mb = (25, 40) if quick else (500, 400)
     n, b = (100, 40) if quick else (2000, 400)
     return {
-        "shards": conc_shards("C05", seed, "same-key", 24 if quick else 400, mb, shards=3) + conc_shards("C05", seed, "update-sweep", 120 if quick else 3000, mb, shards=1) + conc_shards("C05", seed, "sweep-other-key", 144 if quick else 3000, mb, shards=1) + conc_shards("C05", seed, "sweep-reput", 60 if quick else 3000, mb, shards=1) + conc_shards("C05", seed, "mixed", m, mb, shards=5) + conc_shards("C05", seed, "fanout", 30 if quick else 3000, mb, shards=1) + seq_shards("C05", seed, n, b, shards=4),
+        "shards": conc_shards("C05", seed, "same-key", 24 if quick else 400, mb, shards=3) + conc_shards("C05", seed, "update-sweep", 120 if quick else 3000, mb, shards=1) + conc_shards("C05", seed, "sweep-other-key", 144 if quick else 3000, mb, shards=1) + conc_shards("C05", seed, "sweep-reput", 60 if quick else 3000, mb, shards=1) + conc_shards("C05", seed, "mixed", m, mb, shards=4) + conc_shards("C05", seed, "fanout", 30 if quick else 3000, mb, shards=1) + conc_shards("C05", seed, "held-client", 300 if quick else 20000, mb, shards=1) + seq_shards("C05", seed, n, b, shards=4),
         "rule": CONC_RULE + " " + SEQ_RULE,
         "explanation": "At quiescent points (every command acknowledged, two sweeps completed since the clock stopped) the snapshot must satisfy: total = sum of "
                        "charged weights, charged ids = ids of held entries, and after deleting every key total_weight_used() = 0. Directed races: two puts of one "
@@ -258,7 +258,7 @@ OTHER = {"C01": _c01, "C02": _c02, "C05": _c05, "C06": _c06, "C11": _c11, "C12":
 
 
 def _c04_extra(seed, quick):
-    return conc_shards("C04", seed, "mixed", 40 if quick else 600, 40 if quick else 400, shards=3) + conc_shards("C04", seed, "held-client", 600 if quick else 20000, 40 if quick else 400, shards=1) + conc_shards("C04", seed, "release", 300 if quick else 20000, 40 if quick else 400, shards=2)
+    return conc_shards("C04", seed, "mixed", 40 if quick else 600, 40 if quick else 400, shards=3) + conc_shards("C04", seed, "held-client", 600 if quick else 20000, 40 if quick else 400, shards=1) + conc_shards("C04", seed, "release", 300 if quick else 20000, 40 if quick else 400, shards=2) + conc_shards("C04", seed, "fanout", 45 if quick else 3000, 40 if quick else 400, shards=2)
 
 
 def _c08_extra(seed, quick):
